@@ -14,7 +14,7 @@ open ML
 variable {V : Type} [DecidableEq V]
 
 theorem lookup_of_wf (t : InitTable) (h : wfInit t = true) (p : String) (hp : p ∈ t.params) :
-    lookupAttr t.attrs p = some (if isAlias t p then .const depConst else expectedAttr t p) := by
+    lookupAttr t.attrs p = some (if isAlias t p then aliasAttr p else expectedAttr t p) := by
   unfold wfInit at h
   have h1 := (Bool.and_eq_true _ _ ▸ h).1
   have := (List.all_eq_true.mp h1) p hp
@@ -25,34 +25,45 @@ theorem lookup_of_wf (t : InitTable) (h : wfInit t = true) (p : String) (hp : p 
 
 /-- the value stored for a non-alias parameter `p` is the argument object itself — or, when the
 deprecated alias of `p` was supplied, the alias argument -/
-theorem C18_roundtrip (t : InitTable) (h : wfInit t = true) (constV : String → V) (args : String → V)
+theorem C18_roundtrip (t : InitTable) (h : wfInit t = true) (isDep : V → Bool) (constV : String → V) (args : String → V)
     (p : String) (hp : p ∈ t.params) (hna : isAlias t p = false) :
-    runInit t constV args p = some (evalSym constV args (expectedAttr t p)) := by
+    runInit t isDep constV args p = some (evalSym isDep constV args (expectedAttr t p)) := by
   unfold runInit
   rw [lookup_of_wf t h p hp]; simp [hna]
 
 /-- no alias involved: `get_params()[p]` is the identical object that was passed -/
-theorem C18_roundtrip_plain (t : InitTable) (h : wfInit t = true) (constV : String → V)
+theorem C18_roundtrip_plain (t : InitTable) (h : wfInit t = true) (isDep : V → Bool) (constV : String → V)
     (args : String → V) (p : String) (hp : p ∈ t.params) (hna : isAlias t p = false)
     (hnr : t.deprecated.find? (·.2 == p) = none) :
-    runInit t constV args p = some (args p) := by
-  rw [C18_roundtrip t h constV args p hp hna]
+    runInit t isDep constV args p = some (args p) := by
+  rw [C18_roundtrip t h isDep constV args p hp hna]
   simp [expectedAttr, hnr, evalSym]
 
 /-- a replaced parameter holds the alias value exactly when the alias was supplied -/
-theorem C18_alias_maps (t : InitTable) (h : wfInit t = true) (constV : String → V)
+theorem C18_alias_maps (t : InitTable) (h : wfInit t = true) (isDep : V → Bool) (constV : String → V)
     (args : String → V) (p a r : String) (hp : p ∈ t.params) (hna : isAlias t p = false)
     (hr : t.deprecated.find? (·.2 == p) = some (a, r)) :
-    runInit t constV args p = some (if args a ≠ constV depConst then args a else args p) := by
-  rw [C18_roundtrip t h constV args p hp hna]
+    runInit t isDep constV args p = some (if isDep (args a) then args p else args a) := by
+  rw [C18_roundtrip t h isDep constV args p hp hna]
   simp [expectedAttr, hr, evalSym]
 
-/-- alias attributes always hold the `'deprecated'` sentinel after construction -/
-theorem C18_alias_sentinel (t : InitTable) (h : wfInit t = true) (constV : String → V)
+/-- what an alias attribute holds: the very object passed when that is a `'deprecated'` string, the literal
+otherwise -/
+theorem C18_alias_attr (t : InitTable) (h : wfInit t = true) (isDep : V → Bool) (constV : String → V)
     (args : String → V) (a : String) (hp : a ∈ t.params) (ha : isAlias t a = true) :
-    runInit t constV args a = some (constV depConst) := by
+    runInit t isDep constV args a = some (if isDep (args a) then args a else constV depConst) := by
   unfold runInit
-  rw [lookup_of_wf t h a hp]; simp [ha, evalSym]
+  rw [lookup_of_wf t h a hp]; simp [ha, evalSym, aliasAttr]
+
+/-- alias attributes always hold the `'deprecated'` sentinel (by value) after construction -/
+theorem C18_alias_sentinel (t : InitTable) (h : wfInit t = true) (isDep : V → Bool) (constV : String → V)
+    (hconst : isDep (constV depConst) = true)
+    (args : String → V) (a : String) (hp : a ∈ t.params) (ha : isAlias t a = true) :
+    ∃ v, runInit t isDep constV args a = some v ∧ isDep v = true := by
+  rw [C18_alias_attr t h isDep constV args a hp ha]
+  by_cases hd : isDep (args a) = true
+  · exact ⟨args a, by simp [hd], hd⟩
+  · exact ⟨constV depConst, by simp [hd], hconst⟩
 
 /-- every deprecated alias issues a FutureWarning and names a real replacement parameter -/
 theorem C18_alias_warns (t : InitTable) (h : wfInit t = true) (a r : String) (har : (a, r) ∈ t.deprecated) :
@@ -63,43 +74,70 @@ theorem C18_alias_warns (t : InitTable) (h : wfInit t = true) (a r : String) (ha
   simp only [Bool.and_eq_true, List.contains_eq_mem, decide_eq_true_eq] at this
   exact ⟨by simpa using this.2, by simpa using this.1.1.2⟩
 
-/-- `get_params` of a constructed estimator, as an argument assignment for a new construction -/
-def getParams (t : InitTable) (constV : String → V) (args : String → V) (dflt : V) : String → V :=
-  fun p => (runInit t constV args p).getD dflt
-
-/-- **clone**: constructing from `get_params()` reproduces every parameter of the original -/
-theorem C18_clone_eq (t : InitTable) (h : wfInit t = true) (constV : String → V) (args : String → V)
-    (dflt : V) (p : String) (hp : p ∈ t.params)
-    (hdep : ∀ a r, (a, r) ∈ t.deprecated → a ∈ t.params) :
-    runInit t constV (getParams t constV args dflt) p = runInit t constV args p := by
+/-- **the constructor stores what it is given, as the identical object**, whenever no alias is in use —
+i.e. whenever every alias argument is a `'deprecated'` string, be it the literal of the signature default or
+an equal string that came out of `pickle` / `get_params`.  This is the check scikit-learn's `clone` performs
+(`param1 is param2` for every parameter). -/
+theorem C18_ctor_identity (t : InitTable) (h : wfInit t = true) (isDep : V → Bool) (constV : String → V)
+    (args : String → V) (hargs : ∀ a, isAlias t a = true → isDep (args a) = true)
+    (hdep : ∀ a r, (a, r) ∈ t.deprecated → isAlias t a = true)
+    (p : String) (hp : p ∈ t.params) :
+    runInit t isDep constV args p = some (args p) := by
   by_cases ha : isAlias t p = true
-  · rw [C18_alias_sentinel t h constV _ p hp ha, C18_alias_sentinel t h constV _ p hp ha]
+  · rw [C18_alias_attr t h isDep constV args p hp ha]; simp [hargs p ha]
   · have hna : isAlias t p = false := by simpa using ha
-    rw [C18_roundtrip t h constV _ p hp hna, C18_roundtrip t h constV args p hp hna]
-    unfold expectedAttr
     cases hr : t.deprecated.find? (·.2 == p) with
-    | none =>
-      simp only [evalSym, getParams]
-      rw [C18_roundtrip_plain t h constV args p hp hna hr]; rfl
+    | none => exact C18_roundtrip_plain t h isDep constV args p hp hna hr
     | some ar =>
       obtain ⟨a, r⟩ := ar
       have hmem : (a, r) ∈ t.deprecated := List.mem_of_find?_eq_some hr
-      have hap : a ∈ t.params := hdep a r hmem
-      have haa : isAlias t a = true := by
-        unfold isAlias; simp only [List.any_eq_true]; exact ⟨(a, r), hmem, by simp⟩
-      have hga : getParams t constV args dflt a = constV depConst := by
-        unfold getParams; rw [C18_alias_sentinel t h constV args a hap haa]; rfl
-      have hgp : getParams t constV args dflt p = (if args a ≠ constV depConst then args a else args p) := by
-        unfold getParams; rw [C18_alias_maps t h constV args p a r hp hna hr]; rfl
-      simp only [evalSym, hga, hgp, ne_eq, not_true_eq_false, if_false]
+      rw [C18_alias_maps t h isDep constV args p a r hp hna hr]
+      simp [hargs a (hdep a r hmem)]
+
+/-- `get_params` of a constructed estimator, as an argument assignment for a new construction -/
+def getParams (t : InitTable) (isDep : V → Bool) (constV : String → V) (args : String → V) (dflt : V) : String → V :=
+  fun p => (runInit t isDep constV args p).getD dflt
+
+theorem isAlias_of_mem (t : InitTable) (a r : String) (h : (a, r) ∈ t.deprecated) : isAlias t a = true := by
+  unfold isAlias; simp only [List.any_eq_true]; exact ⟨(a, r), h, by simp⟩
+
+/-- **clone is accepted and exact**: constructing from `get_params()` — of an estimator built with ANY
+arguments, aliases included — stores every parameter as the identical object `get_params()` returned, so
+scikit-learn's identity check passes and the clone has the same parameters as the original -/
+theorem C18_clone_eq (t : InitTable) (h : wfInit t = true) (isDep : V → Bool) (constV : String → V)
+    (hconst : isDep (constV depConst) = true) (args : String → V)
+    (dflt : V) (p : String) (hp : p ∈ t.params)
+    (hdep : ∀ a r, (a, r) ∈ t.deprecated → a ∈ t.params) :
+    runInit t isDep constV (getParams t isDep constV args dflt) p = runInit t isDep constV args p := by
+  have hal : ∀ a, isAlias t a = true → a ∈ t.params := by
+    intro a ha
+    unfold isAlias at ha
+    simp only [List.any_eq_true, beq_iff_eq] at ha
+    obtain ⟨⟨a', r⟩, hmem, rfl⟩ := ha
+    exact hdep a' r hmem
+  have hget : ∀ a, isAlias t a = true → isDep (getParams t isDep constV args dflt a) = true := by
+    intro a ha
+    obtain ⟨v, hv, hd⟩ := C18_alias_sentinel t h isDep constV hconst args a (hal a ha) ha
+    unfold getParams; rw [hv]; exact hd
+  rw [C18_ctor_identity t h isDep constV (getParams t isDep constV args dflt) hget
+    (fun a r hm => isAlias_of_mem t a r hm) p hp]
+  -- the original estimator does hold a value for `p`
+  unfold getParams
+  cases hr : runInit t isDep constV args p with
+  | some v => rfl
+  | none =>
+    exfalso
+    unfold runInit at hr
+    rw [lookup_of_wf t h p hp] at hr
+    simp at hr
 
 /-- `set_params(p = v)` then `get_params()[p]` is `v` (set_params = setattr of a signature name;
 modelled as reconstruction with the argument replaced) -/
-theorem C18_set_get (t : InitTable) (h : wfInit t = true) (constV : String → V) (args : String → V)
+theorem C18_set_get (t : InitTable) (h : wfInit t = true) (isDep : V → Bool) (constV : String → V) (args : String → V)
     (p : String) (v : V) (hp : p ∈ t.params) (hna : isAlias t p = false)
     (hnr : t.deprecated.find? (·.2 == p) = none) :
-    runInit t constV (fun q => if q = p then v else args q) p = some v := by
-  rw [C18_roundtrip_plain t h constV _ p hp hna hnr]; simp
+    runInit t isDep constV (fun q => if q = p then v else args q) p = some v := by
+  rw [C18_roundtrip_plain t h isDep constV _ p hp hna hnr]; simp
 
 /-! ## one obligation per generated table -/
 theorem C18_wf_Covariance : wfInit MLGen.init_Covariance = true := by decide
@@ -127,5 +165,12 @@ guard (so an unfitted estimator raises `NotFittedError`), and validates its data
 theorem C18_methods_guarded : wfMethodTable MLGen.methodTable = true := by decide +kernel
 
 /-! non-vacuity: a concrete table with an alias, evaluated on concrete objects -/
-example : runInit MLGen.init_LMNN (fun c => c) (fun p => if p = "k" then "7" else if p = "n_neighbors" then "3" else "x")
+example : runInit MLGen.init_LMNN (· == "'deprecated'") (fun c => c) (fun p => if p = "k" then "7" else if p = "n_neighbors" then "3" else "x")
     "n_neighbors" = some "7" := by decide
+
+/-! objects as (content, identity): an unpickled `'deprecated'` string (identity 7) is not the literal
+(identity 0), passes the constructor's value test, and is stored as the very object that was passed -/
+example : runInit (V := String × Nat) MLGen.init_LMNN (fun v => v.1 == "'deprecated'") (fun c => (c, 0))
+    (fun p => if p = "k" then ("'deprecated'", 7) else (p, 1)) "k" = some ("'deprecated'", 7) := by decide
+example : runInit (V := String × Nat) MLGen.init_LMNN (fun v => v.1 == "'deprecated'") (fun c => (c, 0))
+    (fun p => if p = "k" then ("5", 7) else (p, 1)) "k" = some ("'deprecated'", 0) := by decide
